@@ -1,6 +1,8 @@
 package codec
 
 import (
+	kmip "github.com/ovh/kmip-go"
+	"github.com/ovh/kmip-go/payloads"
 	"bytes"
 	"encoding/hex"
 	"encoding/json"
@@ -259,6 +261,32 @@ func mutateJSON(rt *rapid.T, valid []byte) ([]byte, string) {
 			if len(scalars) > 0 {
 				n = scalars[rapid.IntRange(0, len(scalars)-1).Draw(rt, "scalarnode")]
 			}
+			// bit masks, under their own tags or as the value of the attribute "Cryptographic Usage Mask": when the document has
+			// any, one of them is the target half of the time
+			var masks []map[string]any
+			for _, x := range nodes {
+				if ty, _ := x["type"].(string); ty == "Integer" {
+					if tg, _ := x["tag"].(string); strings.Contains(tg, "Mask") || tg == "0x42002C" || tg == "0x42008E" {
+						masks = append(masks, x)
+					}
+				}
+				if arr, ok := x["value"].([]any); ok {
+					isMaskAttr := false
+					for _, k := range arr {
+						if km, ok := k.(map[string]any); ok && km["tag"] == "AttributeName" && km["value"] == "Cryptographic Usage Mask" {
+							isMaskAttr = true
+						}
+					}
+					for _, k := range arr {
+						if km, ok := k.(map[string]any); ok && isMaskAttr && km["tag"] == "AttributeValue" {
+							masks = append(masks, km)
+						}
+					}
+				}
+			}
+			if len(masks) > 0 && rapid.Bool().Draw(rt, "target-a-mask") {
+				n = masks[rapid.IntRange(0, len(masks)-1).Draw(rt, "masknode")]
+			}
 			n["value"] = rapid.SampledFrom([]any{"true", "false", "t", "f", "T", "F", "TRUE", "False", "1", "0", "yes", true, false, json.Number("1"), json.Number("0"),
 				"12", "+12", " 12", "0x0000000C", "0X0C", "1e2", "Encrypt||Decrypt", "|Encrypt", "Encrypt| |Decrypt", " ", "||", "Sign|", "Sign |  | Verify", "Sign Verify", "Sign  Verify", "|", "Sign|0x00000002|", "2024-01-01T00:00:00Z", "2024-01-01", json.Number("1700000000"), "00", "0g", json.Number("12")}).Draw(rt, "altform")
 			if ty, _ := n["type"].(string); ty == "Integer" && rapid.Bool().Draw(rt, "masklist") {
@@ -267,6 +295,9 @@ func mutateJSON(rt *rapid.T, valid []byte) ([]byte, string) {
 				n["value"] = rapid.SampledFrom([]string{"Encrypt||Decrypt", "|Encrypt", "Encrypt| |Decrypt", " ", "||", "Sign|", "Sign |  | Verify", "Sign  Verify", "|", "Sign|0x00000002|", "| |", "Sign||", "||Sign", "Nope|Sign", "Sign|Nope"}).Draw(rt, "maskform")
 			}
 			desc = "scalar-in-another-lexical-form"
+			if len(masks) > 0 {
+				desc = "scalar-in-another-lexical-form(document-has-masks)"
+			}
 		case 10, 11:
 			// a numeric element (big integers first) gets a JSON number that is legal JSON but no integer literal
 			var numeric []map[string]any
@@ -353,6 +384,13 @@ func validText(rt *rapid.T, enc string) (data []byte, tg target) {
 		return refEncode(gen.Tree(rt, to), enc), targets[0]
 	case 1:
 		m := gen.Request(rt, o)
+		if rapid.IntRange(0, 2).Draw(rt, "with-a-mask") == 0 {
+			// one request in three is sure to carry a bit mask (as the value of the attribute Cryptographic Usage Mask): the
+			// typed reader of masks has a syntax of its own, which the mutations aim at
+			m.BatchItem = append(m.BatchItem, kmip.RequestBatchItem{Operation: kmip.OperationCreate, RequestPayload: &payloads.CreateRequestPayload{ObjectType: kmip.ObjectTypeSymmetricKey,
+				TemplateAttribute: kmip.TemplateAttribute{Attribute: []kmip.Attribute{{AttributeName: kmip.AttributeNameCryptographicUsageMask, AttributeValue: kmip.CryptographicUsageEncrypt | kmip.CryptographicUsageDecrypt}}}}})
+			m.Header.BatchCount++
+		}
 		tg := targets[1]
 		if rapid.IntRange(0, 3).Draw(rt, "asvalue") == 0 {
 			tg = targets[0]
